@@ -16,6 +16,9 @@ CHECKS = {
  "C14": ("engine-a", "model_checking", A,
          "in every state reached in the C01/C02/C10 scenario spaces every event of the alphabet is fired with every pool object of the accepted type; each refused call is compared with its pre-state (identity-level snapshot incl. name index, then all exact lookups)",
          "bounded as C01/C10; a call is refused iff it raises"),
+ "C19": ("engine-a", "model_checking", A,
+         "the C01/C02 scenario histories run with a CallbackListener registered before the seed is built: a shadow model updated only from notifications equals the real structure after every call; at notification time the announced change is not yet visible; every transition re-executed without listeners gives the same outcome and state",
+         "bounded as C01; shadow may read the real pre-state at notification time; redundant re-announcements tolerated; order inside containers not mirrored"),
 }
 m = {
  "version": 1,
